@@ -5,7 +5,7 @@ import json, os, shutil, subprocess, sys
 ROOT = os.path.dirname(os.path.abspath(__file__))
 prop, letter, k = sys.argv[1], sys.argv[2], sys.argv[3]
 extra = sys.argv[4:]
-src = f"/tmp/seed3/{prop}/out/{letter}"
+src = f"/tmp/seed3/{prop}/{os.environ.get('SEEDDIR', 'out')}/{letter}"
 patch, demo = f"{src}/patch.diff", f"{src}/demo_test.go"
 notes = {}
 try:
@@ -32,7 +32,7 @@ if ok:
     shutil.copy(patch, os.path.join(d, "patch.diff"))
     shutil.copy(demo, os.path.join(d, "demo_test.go"))
     meta = dict(notes)
-    meta.update({"property": prop, "round": 3, "confirmed": {kk: s.get(kk) for kk in ("existing_tests_pass", "demo_passes_on_clean_tree", "demo_fails_with_change")},
+    meta.update({"property": prop, "round": int(os.environ.get("SEEDROUND", "3")), "confirmed": {kk: s.get(kk) for kk in ("existing_tests_pass", "demo_passes_on_clean_tree", "demo_fails_with_change")},
                  "ran": "seedtest.py: git -C /repo apply patch.diff; go test ./... (pass); demo (fail); ./check; git checkout; demo (pass)",
                  "detected_by": s.get("detected_by"),
                  "check_results": {p: {"exit": v["exit"], "violation": (v["violation_lines"] or [None])[0], "replay": v.get("replay")} for p, v in s.get("checks", {}).items()}})
